@@ -401,3 +401,210 @@ Proof.
           | solve [upper_shape (fun (i : Z) (d : list Z) => (d, i)) c b p fuel] ]
   end.
 Qed.
+
+(* ================================================================== OctalFormat, HexFormat (enc.go) *)
+(* the loop shared by octal_format_go and hex_format_go: one four-byte escape per input byte *)
+Fixpoint fmt_go (esc : Z -> option (list Z)) (cap : nat) (s out : list Z) : option (list Z) :=
+  match s with
+  | [] => Some (pad_to cap out)
+  | c :: t => if (length out + 4 <=? cap)%nat then match esc c with None => None | Some e => fmt_go esc cap t (out ++ e) end else None
+  end.
+Definition esc_oct (c : Z) : option (list Z) := option_map (cons 92) (append_uint 3 c 8).
+Definition esc_hex (c : Z) : option (list Z) := option_map (fun d => 92 :: 120 :: to_upper d) (append_uint 2 c 16).
+Lemma octal_format_go_fmt : forall s cap out, octal_format_go cap s out = fmt_go esc_oct cap s out.
+Proof.
+  induction s as [|c t IH]; intros cap out; cbn [octal_format_go fmt_go]; [reflexivity|].
+  destruct (length out + 4 <=? cap)%nat; [|reflexivity]. unfold esc_oct. destruct (append_uint 3 c 8); cbn [option_map]; [apply IH|reflexivity].
+Qed.
+Lemma hex_format_go_fmt : forall s cap out, hex_format_go cap s out = fmt_go esc_hex cap s out.
+Proof.
+  induction s as [|c t IH]; intros cap out; cbn [hex_format_go fmt_go]; [reflexivity|].
+  destruct (length out + 4 <=? cap)%nat; [|reflexivity]. unfold esc_hex. destruct (append_uint 2 c 16); cbn [option_map]; [apply IH|reflexivity].
+Qed.
+
+(* digits are bytes *)
+Lemma fmt_digits_bytes base : 2 <= base <= 36 -> forall fuel v acc, bytes acc -> bytes (fmt_digits fuel base v acc).
+Proof.
+  intros Hb. induction fuel as [|fu IH]; intros v acc Ha; cbn [fmt_digits]; [exact Ha|].
+  assert (Hd : bytes (digit_char (v mod base) :: acc)).
+  { constructor; [|exact Ha]. pose proof (Z.mod_pos_bound v base ltac:(lia)). unfold is_byte, digit_char. destruct (v mod base <? 10); lia. }
+  cbv zeta. destruct (v / base =? 0); [exact Hd|apply IH, Hd].
+Qed.
+Lemma append_uint_bytes w v base d : 2 <= base <= 36 -> append_uint w v base = Some d -> bytes d.
+Proof.
+  intros Hb H. unfold append_uint in H. destruct (length (format_bits v base) <=? w)%nat; [|discriminate]. injection H as <-.
+  apply Forall_app. split; [apply Forall_forall; intros x Hx; apply repeat_spec in Hx; subst x; unfold is_byte; lia|].
+  apply fmt_digits_bytes; [exact Hb|constructor].
+Qed.
+Lemma append_uint_length w v base d : append_uint w v base = Some d -> length d = w.
+Proof.
+  intros H. unfold append_uint in H. destruct (Nat.leb_spec (length (format_bits v base)) w); [|discriminate]. injection H as <-.
+  rewrite app_length, repeat_length. lia.
+Qed.
+
+(* the make()d buffer: what was written so far, zeros behind it *)
+Lemma pad_length cap out : (length out <= cap)%nat -> length (pad_to cap out) = cap.
+Proof. intros H. unfold pad_to. rewrite app_length, repeat_length. lia. Qed.
+Lemma repeat_cons_app {A} (x : A) n : repeat x (S n) = repeat x n ++ [x].
+Proof. induction n as [|n IH]; [reflexivity|]. cbn [repeat app] in *. rewrite <- IH. reflexivity. Qed.
+Lemma m_set_pad cap out i v : i = Z.of_nat (length out) -> (length out < cap)%nat ->
+  m_set (pad_to cap out) i v = Ret (pad_to cap (out ++ [v])).
+Proof.
+  intros -> H. unfold pad_to. replace (cap - length out)%nat with (S (cap - length (out ++ [v]))) by (rewrite app_length; cbn [length]; lia).
+  cbn [repeat]. unfold m_set, set_at. rewrite app_length. cbn [length]. rewrite repeat_length.
+  destruct (Z.leb_spec 0 (Z.of_nat (length out))); [|lia].
+  destruct (Z.ltb_spec (Z.of_nat (length out)) (Z.of_nat (length out + S (cap - length (out ++ [v]))))); [|lia].
+  cbn [andb lift]. rewrite Nat2Z.id, upd_mid, <- app_assoc. reflexivity.
+Qed.
+Lemma skipn_repeat {A} (x : A) n k : skipn k (repeat x n) = repeat x (n - k).
+Proof. revert k. induction n as [|n IH]; intros [|k]; cbn [repeat skipn Nat.sub]; try reflexivity. apply IH. Qed.
+Lemma firstn_repeat {A} (x : A) n k : (k <= n)%nat -> firstn k (repeat x n) = repeat x k.
+Proof. revert k. induction n as [|n IH]; intros [|k] H; cbn [repeat firstn]; try reflexivity; [lia|]. rewrite IH by lia. reflexivity. Qed.
+Lemma m_slice_pad cap out a b n : a = Z.of_nat (length out) -> b = a + Z.of_nat n -> (length out + n <= cap)%nat ->
+  m_slice (pad_to cap out) a b = Ret (repeat 0 n).
+Proof.
+  intros -> -> H. rewrite m_slice_in by (unfold zlen; rewrite ?pad_length by lia; lia). f_equal.
+  replace (Z.to_nat (Z.of_nat (length out) + Z.of_nat n) - Z.to_nat (Z.of_nat (length out)))%nat with n by lia.
+  rewrite Nat2Z.id. unfold pad_to. rewrite skipn_app, skipn_all, Nat.sub_diag. cbn [skipn app]. apply firstn_repeat. lia.
+Qed.
+Lemma splice_pad cap out a b x : a = Z.of_nat (length out) -> b = a + Z.of_nat (length x) -> (length out + length x <= cap)%nat ->
+  splice (pad_to cap out) a b x = pad_to cap (out ++ x).
+Proof.
+  intros -> -> H. unfold splice, pad_to. rewrite Nat2Z.id.
+  replace (Z.to_nat (Z.of_nat (length out) + Z.of_nat (length x))) with (length out + length x)%nat by lia.
+  rewrite firstn_app, firstn_all, Nat.sub_diag. cbn [firstn]. rewrite app_nil_r.
+  rewrite skipn_app, skipn_all2 by lia. cbn [app]. rewrite skipn_repeat, <- app_assoc, app_length.
+  do 3 f_equal. lia.
+Qed.
+(* the escape just written: the last bytes of the written part *)
+Lemma m_slice_tail cap out d a b : a = Z.of_nat (length out) -> b = a + Z.of_nat (length d) -> (length out + length d <= cap)%nat ->
+  m_slice (pad_to cap (out ++ d)) a b = Ret d.
+Proof.
+  intros -> -> H. rewrite m_slice_in by (unfold zlen; rewrite ?pad_length by (rewrite app_length; lia); lia). f_equal.
+  replace (Z.to_nat (Z.of_nat (length out) + Z.of_nat (length d)) - Z.to_nat (Z.of_nat (length out)))%nat with (length d) by lia.
+  rewrite Nat2Z.id. unfold pad_to. rewrite <- app_assoc, skipn_app, skipn_all, Nat.sub_diag. cbn [skipn app].
+  rewrite firstn_app, firstn_all, Nat.sub_diag. cbn [firstn]. apply app_nil_r.
+Qed.
+Lemma splice_tail cap out d a b x : a = Z.of_nat (length out) -> b = a + Z.of_nat (length d) -> length x = length d ->
+  (length out + length d <= cap)%nat -> splice (pad_to cap (out ++ d)) a b x = pad_to cap (out ++ x).
+Proof.
+  intros -> -> Hx H. unfold splice, pad_to. rewrite Nat2Z.id.
+  replace (Z.to_nat (Z.of_nat (length out) + Z.of_nat (length d))) with (length (out ++ d)) by (rewrite app_length; lia).
+  rewrite <- !app_assoc. rewrite firstn_app, firstn_all, Nat.sub_diag. cbn [firstn]. rewrite app_nil_r.
+  rewrite (app_assoc out d), skipn_app, skipn_all, Nat.sub_diag. cbn [skipn app].
+  rewrite !app_length, Hx. reflexivity.
+Qed.
+Lemma m_make_ok n : 0 <= n -> m_make n = Ret (repeat 0 (Z.to_nat n)).
+Proof. intros H. unfold m_make. destruct (Z.ltb_spec n 0); [lia|reflexivity]. Qed.
+
+(* the loop, for any packing pk of (buffer, j, f, i) — pk may ignore f, which is dead at the start of an iteration —
+   given what one iteration does on a buffer with room for one more escape *)
+Lemma fmt_while {St R} (pk : list Z -> Z -> Z -> Z -> St) (c : St -> M bool) (b : St -> M (ctl St R)) (p : St -> M St)
+    (s : list Z) (cap : nat) (esc : Z -> option (list Z)) (fo : Z) :
+  (forall k out f0 e, (k < length s)%nat -> esc (nth k s 0) = Some e -> length e = 4%nat -> (length out + 4 <= cap)%nat ->
+     iter1 c b p (pk (pad_to cap out) (Z.of_nat (length out)) f0 (Z.of_nat k)) =
+     Ret (inl (pk (pad_to cap (out ++ e)) (Z.of_nat (length out) + 4) (Z.of_nat (length out) + fo) (Z.of_nat k + 1)))) ->
+  (forall B j f0, iter1 c b p (pk B j f0 (zlen s)) = Ret (inr (inl (pk B j f0 (zlen s))))) ->
+  (forall k, (k < length s)%nat -> exists e, esc (nth k s 0) = Some e /\ length e = 4%nat) ->
+  cap = (4 * length s)%nat ->
+  forall fuel k out f0, length out = (4 * k)%nat -> (k <= length s)%nat -> (length s - k < fuel)%nat ->
+    exists B j f1, while fuel c b p (pk (pad_to cap out) (Z.of_nat (length out)) f0 (Z.of_nat k)) = Ret (inl (pk B j f1 (zlen s)))
+                   /\ fmt_go esc cap (skipn k s) out = Some B.
+Proof.
+  intros Hin Hend Hesc Hcap. induction fuel as [|fuel IH]; intros k out f0 Ho Hk Hf; [lia|]. rewrite while_iter.
+  destruct (Nat.eq_dec k (length s)) as [->|Hne].
+  - fold (zlen s). rewrite Hend, skipn_all. cbn [bind fmt_go]. eauto.
+  - assert (Hlt : (k < length s)%nat) by lia. destruct (Hesc k Hlt) as (e & He & Hle).
+    rewrite (Hin k out f0 e Hlt He Hle) by lia. cbn [bind].
+    rewrite (skipn_cons_nth s k Hlt). cbn [fmt_go]. destruct (Nat.leb_spec (length out + 4) cap); [|lia]. rewrite He.
+    replace (Z.of_nat (length out) + 4) with (Z.of_nat (length (out ++ e))) by (rewrite app_length; lia).
+    replace (Z.of_nat k + 1) with (Z.of_nat (S k)) by lia.
+    apply IH; rewrite ?app_length; lia.
+Qed.
+
+Ltac pad_side := unfold to_upper; rewrite ?app_length, ?repeat_length, ?map_length; cbn [length]; lia.
+(* one iteration on concrete generated code: the checked buffer operations are rewritten into their values *)
+Ltac fmt_iter s n Hfuel :=
+  repeat first
+    [ erewrite m_set_pad by pad_side
+    | erewrite (m_slice_pad _ _ _ _ n) by pad_side
+    | rewrite (m_get_in s) by (unfold zlen; lia)
+    | rewrite Nat2Z.id
+    | rewrite code_appendUint by (rewrite ?repeat_length; lia)
+    | rewrite repeat_length
+    | erewrite m_slice_tail by pad_side
+    | rewrite code_toUpper by (first [ eassumption | pad_side ])
+    | erewrite splice_tail by pad_side
+    | erewrite splice_pad by pad_side
+    | progress step_code ].
+
+Ltac fmt_shape pk c b p fuel esc fo n unfold_esc :=
+  lazymatch goal with Hb : bytes ?s, Hcap : ?cap = (4 * length ?s)%nat, Hesc : forall k, (k < length ?s)%nat -> exists e, esc _ = Some e /\ _ |- _ =>
+    let H1 := fresh "H1" in let H2 := fresh "H2" in
+    assert (H1 : forall k out f0 e, (k < length s)%nat -> esc (nth k s 0) = Some e -> length e = 4%nat -> (length out + 4 <= cap)%nat ->
+       iter1 c b p (pk (pad_to cap out) (Z.of_nat (length out)) f0 (Z.of_nat k)) =
+       Ret (inl (pk (pad_to cap (out ++ e)) (Z.of_nat (length out) + 4) (Z.of_nat (length out) + fo) (Z.of_nat k + 1))));
+    [ let k := fresh "k" in let out := fresh "out" in let f0 := fresh "f0" in let e := fresh "e" in
+      let Hk := fresh "Hk" in let He := fresh "He" in let Hle := fresh "Hle" in let Hroom := fresh "Hroom" in
+      intros k out f0 e Hk He Hle Hroom; iter_open;
+      assert (Hl : (Z.of_nat k <? zlen s) = true) by (apply Z.ltb_lt; unfold zlen; lia); rewrite ?Hl;
+      unfold_esc He;
+      match type of He with option_map _ ?au = Some _ =>
+        let d := fresh "d" in let Ed := fresh "Ed" in
+        destruct au as [d|] eqn:Ed; [|discriminate He]; cbn [option_map] in He; injection He as He; subst e;
+        pose proof (append_uint_length _ _ _ _ Ed) as Hdl; assert (Hdb : bytes d) by (eapply append_uint_bytes; [|exact Ed]; lia);
+        fmt_iter s n fuel; rewrite ?Ed; cbn [lift]; fmt_iter s n fuel;
+        rewrite <- ?app_assoc; cbn [app]; reflexivity
+      end
+    | assert (H2 : forall B j f0, iter1 c b p (pk B j f0 (zlen s)) = Ret (inr (inl (pk B j f0 (zlen s)))));
+      [ intros; iter_open; rewrite ?Z.ltb_irrefl; reflexivity
+      | let B := fresh "B" in let j := fresh "j" in let f1 := fresh "f1" in let E := fresh "E" in let F := fresh "F" in
+        destruct (fmt_while pk c b p s cap esc fo H1 H2 Hesc Hcap fuel 0%nat [] 0 eq_refl ltac:(lia) ltac:(lia)) as (B & j & f1 & E & F);
+        cbv beta in E; cbn [length] in E; change (Z.of_nat 0) with 0 in E; rewrite E; clear E H1 H2;
+        cbn [skipn] in F; cbv beta iota; rewrite F; reflexivity ] ]
+  end.
+
+Lemma esc_oct_some (s : list Z) : bytes s -> forall k, (k < length s)%nat -> exists e, esc_oct (nth k s 0) = Some e /\ length e = 4%nat.
+Proof.
+  intros Hb k Hk. unfold esc_oct. rewrite octfmt3 by (apply nth_byte; assumption). cbn [option_map]. eexists. split; [reflexivity|reflexivity].
+Qed.
+Lemma esc_hex_some (s : list Z) : bytes s -> forall k, (k < length s)%nat -> exists e, esc_hex (nth k s 0) = Some e /\ length e = 4%nat.
+Proof.
+  intros Hb k Hk. unfold esc_hex. pose proof (hexfmt2 _ (nth_byte s k Hb Hk)) as H.
+  destruct (append_uint 2 (nth k s 0) 16) as [d|] eqn:E; [|discriminate]. cbn [option_map]. eexists. split; [reflexivity|].
+  cbn [length]. unfold to_upper. rewrite map_length, (append_uint_length _ _ _ _ E). reflexivity.
+Qed.
+Lemma make_pad n : repeat 0 n = pad_to n [].
+Proof. unfold pad_to. cbn [app length]. rewrite Nat.sub_0_r. reflexivity. Qed.
+
+(* for every byte string and every fuel above its length *)
+Theorem code_OctalFormat : forall fuel s, bytes s -> (length s < fuel)%nat -> g_OctalFormat fuel s = lift (octal_format s).
+Proof.
+  intros fuel s Hb Hf. unfold g_OctalFormat. set (K1 := g_appendUint). repeat autounfold with go2v. subst K1. step_code.
+  rewrite m_make_ok by (unfold zlen; lia). step_code.
+  unfold octal_format. rewrite octal_format_go_fmt.
+  replace (Z.to_nat (zlen s * 4)) with (4 * length s)%nat by (unfold zlen; lia). replace (length s * 4)%nat with (4 * length s)%nat by lia.
+  rewrite make_pad. remember (4 * length s)%nat as cap eqn:Hcap. pose proof (esc_oct_some s Hb) as Hesc.
+  match goal with |- match while _ ?c ?b ?p ?s0 with _ => _ end = _ =>
+    first [ solve [fmt_shape (fun (B : list Z) (j f i : Z) => (B, j, f, i)) c b p fuel esc_oct 1 3%nat ltac:(fun H => unfold esc_oct in H)]
+          | solve [fmt_shape (fun (B : list Z) (j f i : Z) => (i, B, j, f)) c b p fuel esc_oct 1 3%nat ltac:(fun H => unfold esc_oct in H)]
+          | solve [fmt_shape (fun (B : list Z) (j f i : Z) => (B, j, i)) c b p fuel esc_oct 1 3%nat ltac:(fun H => unfold esc_oct in H)]
+          | solve [fmt_shape (fun (B : list Z) (j f i : Z) => (i, B, j)) c b p fuel esc_oct 1 3%nat ltac:(fun H => unfold esc_oct in H)] ]
+  end.
+Qed.
+
+(* ... and above 2: toUpper runs over the two digits with the caller's fuel *)
+Theorem code_HexFormat : forall fuel s, bytes s -> (length s < fuel)%nat -> (2 < fuel)%nat -> g_HexFormat fuel s = lift (hex_format s).
+Proof.
+  intros fuel s Hb Hf Hf2. unfold g_HexFormat. set (K1 := g_appendUint). set (K2 := g_toUpper). repeat autounfold with go2v. subst K1 K2. step_code.
+  rewrite m_make_ok by (unfold zlen; lia). step_code.
+  unfold hex_format. rewrite hex_format_go_fmt.
+  replace (Z.to_nat (zlen s * 4)) with (4 * length s)%nat by (unfold zlen; lia). replace (length s * 4)%nat with (4 * length s)%nat by lia.
+  rewrite make_pad. remember (4 * length s)%nat as cap eqn:Hcap. pose proof (esc_hex_some s Hb) as Hesc.
+  match goal with |- match while _ ?c ?b ?p ?s0 with _ => _ end = _ =>
+    first [ solve [fmt_shape (fun (B : list Z) (j f i : Z) => (B, j, f, i)) c b p fuel esc_hex 2 2%nat ltac:(fun H => unfold esc_hex in H)]
+          | solve [fmt_shape (fun (B : list Z) (j f i : Z) => (i, B, j, f)) c b p fuel esc_hex 2 2%nat ltac:(fun H => unfold esc_hex in H)]
+          | solve [fmt_shape (fun (B : list Z) (j f i : Z) => (B, j, i)) c b p fuel esc_hex 2 2%nat ltac:(fun H => unfold esc_hex in H)]
+          | solve [fmt_shape (fun (B : list Z) (j f i : Z) => (i, B, j)) c b p fuel esc_hex 2 2%nat ltac:(fun H => unfold esc_hex in H)] ]
+  end.
+Qed.
